@@ -264,6 +264,17 @@ pub struct PtSpec {
     /// milliseconds after the previous one (below the per-packet time-out; their sum may exceed it).
     #[serde(default)]
     pub pace_ms: u32,
+    /// Every packet other than an acknowledgement arrives in two pieces: the first `.0` bytes, then
+    /// `.1` milliseconds of nothing, then the rest (a schedule element, not a fault).
+    #[serde(default)]
+    pub frame_pause: Option<(u8, u32)>,
+    /// Which intermediate status codes the terminal shows: 0 = the usual four, 1 = unusual ones (41,
+    /// 4B, 9C, D2 ...), 2 = 00 / FF, 3 = a mix.
+    #[serde(default)]
+    pub status_codes: u8,
+    /// Time-out byte (BCD minutes) inside the intermediate statuses; None = absent.
+    #[serde(default)]
+    pub intermediate_timeout: Option<u8>,
 }
 
 // ---------------------------------------------------------------- state
@@ -695,9 +706,16 @@ impl PtConn {
             pt.identity_sent.push((self.conn, serial, seq));
         }
         let eff = e.effect.clone();
+        let pause = if at_ack { None } else { pt.spec.frame_pause };
         drop(pt);
         self.apply_effect(&eff);
-        io.release_after(delay, &e.frame);
+        match pause {
+            Some((n, ms)) if (n as usize) < e.frame.len() && n > 0 => {
+                io.release_after(delay, &e.frame[..n as usize]);
+                io.release_after(ms as u64, &e.frame[n as usize..]);
+            }
+            _ => io.release_after(delay, &e.frame),
+        }
         true
     }
 
@@ -762,9 +780,17 @@ impl PtConn {
         };
         let mut out = vec![plain(rc::ACK.to_vec())];
         let mut completes = true;
-        let pre = |out: &mut Vec<Emit>, n: u8| {
+        let (codes_kind, tmo) = (pt.spec.status_codes, pt.spec.intermediate_timeout);
+        let pre = move |out: &mut Vec<Emit>, n: u8| {
             for i in 0..n {
-                out.push(plain(rc::intermediate(0x0e + i % 4, None)));
+                let code = match codes_kind % 4 {
+                    0 => 0x0e + i % 4,
+                    1 => [0x41u8, 0x4b, 0x9c, 0xd2, 0x1c, 0x68][(i % 6) as usize],
+                    2 => [0x00u8, 0xff][(i % 2) as usize],
+                    _ => [0x0au8, 0x17, 0x41, 0x0e, 0xc7, 0xff, 0x00, 0x4b][(i % 8) as usize],
+                };
+                // (a BCD byte: values up to 99)
+                out.push(plain(rc::intermediate(code, tmo.map(|t| t.min(99)))));
             }
         };
         let prints = |out: &mut Vec<Emit>, n: u8| {
